@@ -136,9 +136,9 @@ def plans(ctx, m):
                           consts=consts(m, VC1=vc1, VC2=allvc2 & vc1 | {"bare"}, MinR=1, MaxR=3, ChForms=ALL_CHFORMS, PqSet=set(m.classes["pq"]),
                                         Bases=base, Orders=orders, Cms=cms)))
     else:
-        P.append(dict(name="val-pull", nv=4, w=8, consts=consts(m, Scope=set(m.ids) - m.under("r.deliver") - {"r.deliver_concurrency"},
+        P.append(dict(name="val-pull", nv=3, w=8, consts=consts(m, Scope=set(m.ids) - m.under("r.deliver") - {"r.deliver_concurrency"},
                                                             VC1=allvc, VC2=allvc2)))
-        P.append(dict(name="val-deliver", nv=4, w=4, consts=consts(m, Scope=deliver, VC1=allvc, VC2=allvc2, Bases={"deliver"})))
+        P.append(dict(name="val-deliver", nv=3, w=4, consts=consts(m, Scope=deliver, VC1=allvc, VC2=allvc2, Bases={"deliver"})))
         P.append(dict(name="val-none", nv=2, w=4, consts=consts(m, VC1=allvc, VC2={"bare", "blank"}, Bases={"none"})))
         P.append(dict(name="val-vars", nv=2, w=4, consts=consts(m, VC1={"vars", "ph_file", "bare"}, VC2={"vars", "bare"}, K=2, NMax=1,
                                                             Scope=ingress_side | m.under("vars", "defaults.egress", "pull_api", "secrets"),
@@ -153,7 +153,7 @@ def plans(ctx, m):
                                                                  VC1={"bare", "quoted", "blank"}, K=2, Bases={"deliver"})))
         P.append(dict(name="pairs-top", nv=2, w=8, consts=consts(m, Scope=top, VC1={"bare", "blank"}, K=2, NMax=1)))
         P.append(dict(name="triples-route", nv=2, w=10, consts=consts(m, Scope=ingress_side, VC1={"bare"}, K=3, NMax=1)))
-        P.append(dict(name="triples-auth", nv=2, w=8, consts=consts(m, Scope=auth, VC1={"bare", "blank"}, K=3)))
+        P.append(dict(name="triples-auth", nv=2, w=8, consts=consts(m, Scope=auth, VC1={"bare", "blank"}, K=3, NMax=1)))
         P.append(dict(name="channels", nv=2, w=8, consts=consts(m, Scope={"r.publish", "r.auth_basic", "ingress"}, K=1, MinR=0, MaxR=3,
                                                             ChForms=ALL_CHFORMS, ErrSet={"none", "dup_path"},
                                                             Bases={"auto"}, SpMode="default", Orders={"shuffle"})))
@@ -162,14 +162,14 @@ def plans(ctx, m):
                                                              Bases={"auto", "none"}, SpMode="default", Orders={"canon", "interleave"})))
         P.append(dict(name="paths", nv=2, w=4, consts=consts(m, Scope={"r.auth_basic", "r.publish"}, K=2, MinR=1, MaxR=2, ChForms=PATH_CHFORMS,
                                                          PqSet=set(m.classes["pq"]), Bases={"auto", "none"}, SpMode="default")))
-        P.append(dict(name="layout", nv=3, w=8, consts=consts(m, Scope=tops | {"ingress.listen", "vars.item", "secrets.secret"}, K=2, MinR=1, MaxR=2,
+        P.append(dict(name="layout", nv=2, w=8, consts=consts(m, Scope=tops | {"ingress.listen", "vars.item", "secrets.secret"}, K=2, MinR=1, MaxR=2,
                                                           ChForms={("bare", "bare"), ("outbound", "single"), ("internal", "wrapper")},
                                                           Bases={"auto"}, Orders=orders, Cms=cms, SpMode="default")))
         k = 0
         for vc1 in (allvc, noblank):
             for base in ({"auto"}, {"none", "pull", "deliver"}):
                 for depth in (8, 16, 28):
-                    P.append(dict(name="sim%d" % k, nv=2, w=1, k=k, sim=(1500, depth),
+                    P.append(dict(name="sim%d" % k, nv=2, w=1, k=k, sim=(1200, depth),
                                   consts=consts(m, VC1=vc1, VC2=allvc2 & vc1 | {"bare"}, MinR=1, MaxR=3, ChForms=ALL_CHFORMS,
                                                 PqSet=set(m.classes["pq"]), Bases=base, Orders=orders, Cms=cms)))
                     k += 1
